@@ -691,7 +691,7 @@ func runC17(c *run.Ctx) {
 		"model (lists keyed by name), (b) generated introspection documents (random sub-selections, aliases, fragments, includeDeprecated literal/variable/default, __type by literal and variable, unknown names) " +
 		"are evaluated by the reference executor over an introspection data graph derived from the model, (c) responses must be identical for application data served by reflection, by interface resolvers and " +
 		"with an AnyResolver installed. Non-trivial = schema has a deprecation, a default or a directive; distinct by (SDL, document)"
-	n := c.N(250, 8000)
+	n := c.N(350, 8000)
 	c.MinNontriv = n / 10
 	perSchema := c.N(4, 10)
 	// object-valued defaults are Go maps: defaultValue text is only deterministic with sorted keys
